@@ -388,10 +388,29 @@ def run_site(site):
             else:
                 pos_index[v.position] = k_
                 k_ += 1
-        for mode in ("ref", "noref"):
+        modes = ["ref", "noref"]
+        bam_sets = {"ref": [bam], "noref": [bam]}
+        if site[0] in ("pair",) or (len(site) == 4 and site[2] == "random" and site[1] == 1):
+            # the same alignments spread over two files of the sample (every other alignment, in coordinate order),
+            # given in either order: the merged stream must be the one of the single file
+            srt = sorted(alns, key=lambda a_: (a_["start"], a_["name"]))
+            parts = [[a_ for i_, a_ in enumerate(srt) if i_ % 2 == k_] for k_ in (0, 1)]
+            if all(parts):
+                two = []
+                for k_, part in enumerate(parts):
+                    pth = os.path.join(sc.path, f"part{k_}.bam")
+                    synth.write_bam(pth, [("chrA", len(seq))], part, read_groups=[{"ID": "rg1", "SM": "S1"}])
+                    two.append(pth)
+                modes += ["ref-2files", "ref-2files-rev"]
+                bam_sets["ref-2files"] = two
+                bam_sets["ref-2files-rev"] = two[::-1]
+        for mode in modes:
             nsi = NumericSampleIds()
-            with ReadSetReader([bam], reference=fasta if mode == "ref" else None, numeric_sample_ids=nsi, mapq_threshold=20) as rsr:
-                rs = rsr.read("chrA", wvars, "S1", seq if mode == "ref" else None)
+            with ReadSetReader(bam_sets[mode], reference=fasta if mode != "noref" else None, numeric_sample_ids=nsi, mapq_threshold=20) as rsr:
+                rs = rsr.read("chrA", wvars, "S1", seq if mode != "noref" else None)
+            if mode.startswith("ref-2files"):
+                mode_label = mode
+                mode = "ref"
             got = {}
             for r in rs:
                 got[r.name] = {pos_index[x.position]: x.allele for x in r}
